@@ -180,3 +180,11 @@ package server
 //@     where $o != nil && $o.ReplaceTags == (taggingDirective == taggingDirectiveReplace) &&
 //@         $o.ReplaceMetadata == (metadataDirective == metadataDirectiveReplace) && $o.Metadata == metadata && $o.StorageClass == storageClass &&
 //@         same($o.Tags, replaceTags) && $sb == srcBucketName && $sk == srcKey && $db == dstBucketName && $dk == dstKey
+
+// C12. The append reaches the storage for this bucket and key with the offset the client accepted the append for: a
+// supplied x-amz-write-offset-bytes is handed on unchanged, none is handed on as none.
+//@ func (*Server).appendObjectHandler
+//@ mode effects
+//@ effect[C12:append-carries-the-requested-offset] every s.storage.AppendObject(_, $b, $k, _, $ci, $o)
+//@     where $b == bucketName && $k == key && $ci == checksumInput &&
+//@         (writeOffsetStr != "" ==> $o != nil && $o.WriteOffset != nil && *$o.WriteOffset == writeOffset) && (writeOffsetStr == "" ==> $o == nil)
